@@ -108,3 +108,4 @@ known("C16","C16-key-condition-shape-not-validated","Query executes any conditio
  ["C16|key-condition|%s|invalid-shape-executed@%s" % (w, d) for w in ("base", "index") for d in ("v1", "v2")],
  {"op":"Query KeyConditionExpression 'h = :h OR r = :r' -> executed and returns items"})
 fixed("C20","C20-native-key-sorted-characters","native matchers and updaters are looked up by the expression text","a native matcher/updater registered for 'a = :v' also fired for ':v = a' (lookup key = sorted characters) and did not fire for the same text with repeated blanks")
+fixed("C11","C11-unlocked-management-methods","table management methods and test helpers take the client mutex","CreateTable, DeleteTable, UpdateTable, DescribeTable, SetInterpreter, GetNativeInterpreter, SetItemCollectionMetrics, ClearTable's lookup and the batch/transact reads of the failure switch touched shared client state without the mutex: data races, and non-linearizable outcomes such as two racing CreateTable of one name both succeeding")
